@@ -77,6 +77,7 @@ type caseSpec struct {
 	Remote   bool
 	HeadPick int
 	NoMsg    bool
+	FetchCfg string // "" | fetchinclude | fetchexclude | both: fetch keys set in the configuration (fetchcfg.go)
 	r        *rand.Rand
 }
 
@@ -121,6 +122,9 @@ func (s *caseSpec) class() string {
 	}
 	if s.Gen.Nested != nil {
 		sel = "root-attrs-" + s.Gen.Nested.Root
+	}
+	if s.FetchCfg != "" {
+		t += "/cfg-" + s.FetchCfg
 	}
 	return fmt.Sprintf("%s/%s/%s/%s", s.Mode, s.RefSel, sel, t)
 }
@@ -417,6 +421,8 @@ type caseCtx struct {
 	extra map[string][]string // labels of commits created by an earlier op (round trip)
 	// pathTrig, when set, is the coordinate path-level failures of the current command belong to
 	pathTrig string
+	fetch    fetchCfg // lfs.fetchinclude / lfs.fetchexclude setting of the case (fetchcfg.go)
+	cfgArgs  []string // `git -c k=v …` arguments every migrate command of the case gets
 }
 
 func (c *caseCtx) labelsOf(sha string) []string {
@@ -429,8 +435,14 @@ func (c *caseCtx) labelsOf(sha string) []string {
 // migrate runs one git lfs migrate command in dir.
 func (c *caseCtx) migrate(dir string, args ...string) bool {
 	full := append([]string{"migrate"}, args...)
-	res := c.env.Run(sbx.RunOpt{Dir: dir}, "git-lfs", full...)
-	c.cmds = append(c.cmds, "git lfs "+strings.Join(full, " ")+fmt.Sprintf("  # exit %d", res.Code))
+	var res sbx.Result
+	if len(c.cfgArgs) > 0 { // configuration passed on git's command line
+		res = c.env.Run(sbx.RunOpt{Dir: dir}, "git", append(append(append([]string(nil), c.cfgArgs...), "lfs"), full...)...)
+		c.cmds = append(c.cmds, "git "+strings.Join(c.cfgArgs, " ")+" lfs "+strings.Join(full, " ")+fmt.Sprintf("  # exit %d", res.Code))
+	} else {
+		res = c.env.Run(sbx.RunOpt{Dir: dir}, "git-lfs", full...)
+		c.cmds = append(c.cmds, "git lfs "+strings.Join(full, " ")+fmt.Sprintf("  # exit %d", res.Code))
+	}
 	c.run.Count("migrate_runs_"+args[0], 1)
 	switch {
 	case res.GoCrash():
@@ -636,6 +648,7 @@ func runCase(run *evid.Run, idx int) *caseCtx {
 	} else {
 		spec = plan(run, idx)
 	}
+	spec.FetchCfg = planFetchCfg(run.Seed, spec)
 	env := sbx.New()
 	if os.Getenv("VERIF_C12_KEEP") == "" {
 		defer env.Cleanup()
@@ -688,6 +701,7 @@ func runCase(run *evid.Run, idx int) *caseCtx {
 	orig := c.copyRepo(g.Dir, "orig")
 	oldV := loadView(env, orig)
 	c.countDateOrder(oldV)
+	c.applyFetchCfg()
 	if spec.Gen.Dates != "" {
 		c.pathTrig = spec.Trigger
 		run.Count("histories_with_date_layout_"+spec.Gen.Dates, 1)
@@ -823,6 +837,9 @@ func runCase(run *evid.Run, idx int) *caseCtx {
 			args = append(args, "--fixup")
 		}
 		args = append(args, c.refArgs(&o, head)...)
+		if o.Kind == "import" {
+			c.infoDifferential(g.Dir, args[2:]) // same selection, without "import --yes"
+		}
 		if c.migrate(g.Dir, args...) {
 			c.judgeOp(oldV, loadView(env, g.Dir), o)
 		}
@@ -835,7 +852,7 @@ func main() {
 	if os.Getenv("VERIF_C12_KEEP") == "" {
 		defer sbx.RemoveBase()
 	}
-	run.Rule = "seeded repositories built with git plumbing (linear, branching, 2-parent and octopus merges, orphan roots, lightweight / annotated / tag-of-tag tags, symlinks and executables whose names match the selections, empty files, gitlinks, nested .gitattributes, *.bin files already in LFS through the clean filter, raw files under LFS attributes, distinct author/committer identities, dates and zones, multi-line messages, one exotic commit feature in a third of the cases) x one migrate command: import --include/--exclude (forms *.ext, dir/*.ext, exact path, dir/**), import --above, import (all files), import --fixup (attribute variants), import --no-rewrite, export --include/--exclude, export after import; plus histories that adopt LFS midway (raw files first, then exactly the line `git lfs track <pattern>` writes and every matching file re-added through the clean filter, later commits already correct, files committed raw although tracked and repaired later, topic merge, legacy branch, tags) x {import --include=<pattern>, import --fixup} x {--everything, current branch, --include-ref} followed by export --include=<pattern>; plus --fixup histories whose attribute state changes between consecutive commits only through nested .gitattributes files (sub/, sub/deep/, a directory with a space, a merged side branch; states absent / track / empty / !filter / -filter; root file absent, unrelated or tracking; root-file changes as control; fresh paths and contents per attribute state); plus general branching histories whose commit dates are laid out as {root / trunk / fork-point and random commits dated later than their descendants, committer dates decreasing, one identical date everywhere, author dates up to 400 days before or after the committer date} x {import --include, import (all), import --fixup, export} x {--everything, several --include-ref}; ref selection in {--everything, current branch, current branch minus remote refs, --include-ref/--exclude-ref, positional branches}. Class = (mode, ref selection, pattern forms, special coordinate)."
+	run.Rule = "seeded repositories built with git plumbing (linear, branching, 2-parent and octopus merges, orphan roots, lightweight / annotated / tag-of-tag tags, symlinks and executables whose names match the selections, empty files, gitlinks, nested .gitattributes, *.bin files already in LFS through the clean filter, raw files under LFS attributes, distinct author/committer identities, dates and zones, multi-line messages, one exotic commit feature in a third of the cases) x one migrate command: import --include/--exclude (forms *.ext, dir/*.ext, exact path, dir/**), import --above, import (all files), import --fixup (attribute variants), import --no-rewrite, export --include/--exclude, export after import; plus histories that adopt LFS midway (raw files first, then exactly the line `git lfs track <pattern>` writes and every matching file re-added through the clean filter, later commits already correct, files committed raw although tracked and repaired later, topic merge, legacy branch, tags) x {import --include=<pattern>, import --fixup} x {--everything, current branch, --include-ref} followed by export --include=<pattern>; plus --fixup histories whose attribute state changes between consecutive commits only through nested .gitattributes files (sub/, sub/deep/, a directory with a space, a merged side branch; states absent / track / empty / !filter / -filter; root file absent, unrelated or tracking; root-file changes as control; fresh paths and contents per attribute state); plus general branching histories whose commit dates are laid out as {root / trunk / fork-point and random commits dated later than their descendants, committer dates decreasing, one identical date everywhere, author dates up to 400 days before or after the committer date} x {import --include, import (all), import --fixup, export} x {--everything, several --include-ref}; 3 in 5 cases of the basic rotation carry lfs.fetchinclude and/or lfs.fetchexclude (local config, global config or git -c; patterns that would change the selected set if migrate honoured them) with unchanged expectation, plus a differential `migrate info` run; ref selection in {--everything, current branch, current branch minus remote refs, --include-ref/--exclude-ref, positional branches}. Class = (mode, ref selection, pattern forms, special coordinate)."
 	run.Assumptions = []string{
 		"pattern semantics of --include/--exclude are those of .gitattributes (man page); only the forms *.ext, dir/*.ext, exact anchored path, dir/** are generated",
 		"the generator creates no pointer look-alikes and no non-canonical pointers; LFS objects of the original history are all in the local store",
